@@ -1,4 +1,5 @@
 import RedactVerif.Props.L2
+import RedactVerif.Proofs.U.Top
 import RedactVerif.Props.FactsClassify
 /-
 C17 — a registered error hook renders every error operand, except under Unsafe.
@@ -53,5 +54,15 @@ theorem hook_panic_contained (env : Env) (he : EnvOk env) (n : Nat) (p : PP) (hp
     (h : catchPanic env n p arg verb "SafeFormatter".toUTF8.toList false out = .ok q) :
     Inv q.buf ∧ q.buf.mode = p.buf.mode ∧ q.override = p.override :=
   ((spec_all env he n).catchPanic p p arg verb _ false out hp hout).1 q h
+
+/-- **Under `Unsafe()` the error's text is fully enveloped** — with or without a hook installed,
+whatever the error also implements (Stringer, Formatter, SafeFormatter, a panicking `Error`): the
+instance for error operands of C06's theorem (`Proofs/U`). -/
+theorem unsafe_error_fully_enveloped (env : Env) (he : EnvOk env) (n : Nat) (p : PP) (err : Val) (verb : Nat)
+    (hp : Pre p) (ho : p.override = .no) (hm : p.buf.mode ≠ .unsafeEsc)
+    (hT : tailBad p.buf.finalize.buf = false) (hv : ValOk err) (q : PP)
+    (h : printArg env (n + 1) p (.unsafeW err) verb = .ok q) :
+    ∃ l, OnlyLFs l ∧ U.fT q.buf = U.fT p.buf.finalize ++ l :=
+  (U.unsafe_operand env he n p err verb hp ho hm hT hv q h).2.2.2.2.2
 
 end Redact
